@@ -494,4 +494,256 @@ theorem unseen_zero_agree (cs : Str) (hz : zeroUnderscore (48 :: cs) = false) :
             simpa [sScanNumber, lScanNumber, hn] using this
           · exact unseen_zero_default d ds h120 h88 h98 h111 hz
 
+/-! ### the top level: `Scan`'s dispatch and `ParseNum` -/
+
+theorem accS_of_consumed (k : Kind) (r : Str) (e : Bool) (n : Nat) (hn : 0 < n) :
+    (if (n - r.length == n) && !e then some k else none) = accS (k, r, e) := by
+  cases r with
+  | nil => simp [accS]
+  | cons x t =>
+    have : ¬ (n - (t.length + 1) = n) := by omega
+    simp [accS, this]
+
+theorem scannerAccepts_dec (c : Nat) (cs : Str) (hc : isDec c = true) :
+    scannerAccepts (c :: cs) = accS (sScanNumber false (c :: cs)) := by
+  unfold scannerAccepts scanNumber
+  simp only [hc, ↓reduceIte]
+  exact accS_of_consumed _ _ _ _ (by simp)
+
+theorem scannerAccepts_dot (d : Nat) (ds : Str) (hd : isDec d = true) :
+    scannerAccepts (46 :: d :: ds) = accS (sScanNumber true (d :: ds)) := by
+  have h46 : isDec 46 = false := by decide
+  have hd0 : d ≠ 0 := by have := isDec_iff.mp hd; omega
+  unfold scannerAccepts scanNumber
+  simp only [h46, Bool.false_eq_true, ↓reduceIte, BEq.rfl, hd, nulErr_cons_ne hd0, Bool.or_false]
+  exact accS_of_consumed _ _ _ _ (by simp)
+
+theorem parseNum_dec (c : Nat) (cs : Str) (hc : isDec c = true) :
+    parseNum (c :: cs) = accL (lScanNumber false (c :: cs) false) := by
+  have := isDec_iff.mp hc
+  have h0 : (c == 0) = false := by simp only [beq_eq_false_iff_ne]; omega
+  have h45 : (c == 45) = false := by simp only [beq_eq_false_iff_ne]; omega
+  have h43 : (c == 43) = false := by simp only [beq_eq_false_iff_ne]; omega
+  have h46 : (c == 46) = false := by simp only [beq_eq_false_iff_ne]; omega
+  unfold parseNum parseNumFrom
+  simp only [h0, h45, h43, h46, chL_cons, Bool.or_self, Bool.false_eq_true, ↓reduceIte]
+  rfl
+
+theorem parseNum_dot (d : Nat) (ds : Str) (hd : isDec d = true) :
+    parseNum (46 :: d :: ds) = accL (lScanNumber true (d :: ds) false) := by
+  have hd0 : d ≠ 0 := by have := isDec_iff.mp hd; omega
+  unfold parseNum parseNumFrom
+  simp only [chL_cons, BEq.rfl, ↓reduceIte, lNext_cons, nulErr_cons_ne hd0]
+  rfl
+
+theorem scannerAccepts_not_start (s : Str) (h : startsNumber s = false) :
+    scannerAccepts s = none := by
+  unfold scannerAccepts scanNumber
+  cases s with
+  | nil => rfl
+  | cons c rest =>
+    simp only [startsNumber, Bool.or_eq_false_iff, Bool.and_eq_false_imp] at h
+    simp only [h.1, Bool.false_eq_true, ↓reduceIte]
+    by_cases h46 : (c == 46) = true
+    · have h2 := h.2 h46
+      simp only [h46, ↓reduceIte]
+      cases rest with
+      | nil => rfl
+      | cons d ds =>
+        simp only at h2
+        simp [h2]
+    · simp [h46]
+
+theorem scannerAccepts_zeroUnderscore (s : Str) (h : zeroUnderscore s = true) :
+    scannerAccepts s = none := by
+  unfold zeroUnderscore at h
+  split at h
+  · rename_i t
+    rw [scannerAccepts_dec 48 _ (by decide)]
+    simp [sScanNumber, isDec, sZeroTail, sExponent, isMul, accS]
+  · cases h
+
+/-- **Agreement.**  On every spelling on which `Scan` starts a number token, except the
+spellings beginning with "0_", the scanner lexes the whole input as one error-free number
+token of kind `k` iff `literal.ParseNum` accepts it with kind `k`. -/
+theorem numbers_agree (s : Str) (h : startsNumber s = true) (hz : zeroUnderscore s = false) :
+    scannerAccepts s = parseNum s := by
+  cases s with
+  | nil => cases h
+  | cons c rest =>
+    cases hc : isDec c with
+    | true =>
+      rw [scannerAccepts_dec c rest hc, parseNum_dec c rest hc]
+      by_cases h48 : c = 48
+      · subst h48; exact unseen_zero_agree rest hz
+      · exact unseen_nonzero_agree c rest hc h48
+    | false =>
+      simp only [startsNumber, hc, Bool.false_or, Bool.and_eq_true, beq_iff_eq] at h
+      obtain ⟨rfl, h2⟩ := h
+      cases rest with
+      | nil => cases h2
+      | cons d ds =>
+        simp only at h2
+        rw [scannerAccepts_dot d ds h2, parseNum_dot d ds h2]
+        exact seen_agree d ds h2
+
+/-- everything the scanner accepts as a number, `literal.ParseNum` accepts with the same kind -/
+theorem scanner_sub_literal (s : Str) (k : Kind) :
+    scannerAccepts s = some k → parseNum s = some k := by
+  intro h
+  cases hs : startsNumber s with
+  | false => rw [scannerAccepts_not_start s hs] at h; cases h
+  | true =>
+    cases hz : zeroUnderscore s with
+    | true => rw [scannerAccepts_zeroUnderscore s hz] at h; cases h
+    | false => rw [← numbers_agree s hs hz]; exact h
+
+/-- the full statement (no side condition) -/
+def numbers_agree_stmt : Prop := ∀ s, scannerAccepts s = parseNum s
+
+/-- FALSE: `literal.ParseNum` accepts "_1" (a leading '_' is treated as a digit separator);
+the scanner lexes "_1" as an identifier.  Likewise "._5", "+1", "-1". -/
+theorem numbers_agree_false : ¬ numbers_agree_stmt := by
+  intro h
+  exact absurd (h [95, 49]) (by decide)
+
+/-- the statement restricted to the spellings on which `Scan` starts a number token -/
+def numbers_agree_started_stmt : Prop :=
+  ∀ s, startsNumber s = true → scannerAccepts s = parseNum s
+
+/-- FALSE as well: `literal.ParseNum` accepts "0_1.5" as a float; the scanner lexes INT "0"
+followed by the identifier "_1".  (num.go's "0 or float" branch runs `scanMantissa(10)`
+unconditionally and jumps to `fraction:` before the "illegal integer number" check.) -/
+theorem numbers_agree_started_false : ¬ numbers_agree_started_stmt := by
+  intro h
+  exact absurd (h [48, 95, 49, 46, 53] (by decide)) (by decide)
+
+/-- the spellings only `literal.ParseNum` accepts lie outside the scanner's number dispatch or
+begin with "0_" -/
+theorem literal_only (s : Str) (k : Kind) :
+    parseNum s = some k → scannerAccepts s = none →
+      startsNumber s = false ∨ zeroUnderscore s = true := by
+  intro hp hsn
+  cases hs : startsNumber s with
+  | false => exact Or.inl rfl
+  | true =>
+    cases hz : zeroUnderscore s with
+    | true => exact Or.inr rfl
+    | false =>
+      rw [numbers_agree s hs hz, hp] at hsn
+      cases hsn
+
+/-! ### tests (evaluation on samples; NOT the property) -/
+
+-- "1.5e3", "0x_1f", ".5", "12Ki", "00.5" are accepted by both with the same kind
+example : scannerAccepts [49, 46, 53, 101, 51] = some .float ∧
+    parseNum [49, 46, 53, 101, 51] = some .float := by decide
+example : scannerAccepts [48, 120, 95, 49, 102] = some .int ∧
+    parseNum [48, 120, 95, 49, 102] = some .int := by decide
+example : scannerAccepts [46, 53] = some .float ∧ parseNum [46, 53] = some .float := by decide
+example : scannerAccepts [49, 50, 75, 105] = some .int ∧ parseNum [49, 50, 75, 105] = some .int := by
+  decide
+example : scannerAccepts [48, 48, 46, 53] = some .float ∧ parseNum [48, 48, 46, 53] = some .float := by
+  decide
+-- "09", "1__0", "0b2", "1..", "1e" are rejected by both
+example : scannerAccepts [48, 57] = none ∧ parseNum [48, 57] = none := by decide
+example : scannerAccepts [49, 95, 95, 48] = none ∧ parseNum [49, 95, 95, 48] = none := by decide
+example : scannerAccepts [48, 98, 50] = none ∧ parseNum [48, 98, 50] = none := by decide
+example : scannerAccepts [49, 46, 46] = none ∧ parseNum [49, 46, 46] = none := by decide
+example : scannerAccepts [49, 101] = none ∧ parseNum [49, 101] = none := by decide
+-- the hypotheses of `numbers_agree` are satisfiable by a non-trivial value ("0.5")
+example : startsNumber [48, 46, 53] = true ∧ zeroUnderscore [48, 46, 53] = false ∧
+    parseNum [48, 46, 53] = some .float := by decide
+-- signed spellings are accepted by `ParseNum` only
+example : parseNum [45, 49] = some .int ∧ scannerAccepts [45, 49] = none ∧
+    parseNumUnsigned [45, 49] = none := by decide
+
+/-! ### a small independent sanity layer: plain decimal spellings of the CUE grammar
+
+`decimal_lit = "0" | ( "1" … "9" ) { [ "_" ] decimal_digit }` and
+`float_lit ⊇ decimals "." decimals`, here without underscores. -/
+
+/-- the mantissa loop over a run of decimal digits followed by end of input or '.' -/
+theorem lMant_digits (last : Nat) (ds rest : Str) (hl : last ≠ 95)
+    (hds : ds.all isDec = true) (hrest : rest = [] ∨ ∃ t, rest = 46 :: t) :
+    lMant 10 last (ds ++ rest) = (rest, !ds.isEmpty, false) := by
+  have hl' : (last == 95) = false := by simpa using hl
+  induction ds generalizing last with
+  | nil =>
+    rcases hrest with rfl | ⟨t, rfl⟩
+    · simp [lMant, hl']
+    · simp [lMant_stop 10 last 46 t (by decide), hl']
+  | cons d ds ih =>
+    simp only [List.all_cons, Bool.and_eq_true] at hds
+    have hd := isDec_iff.mp hds.1
+    have hd95 : d ≠ 95 := by omega
+    have hd95' : (d == 95) = false := by simpa using hd95
+    have hnext : nulErr (ds ++ rest) = false := by
+      cases ds with
+      | nil =>
+        rcases hrest with rfl | ⟨t, rfl⟩
+        · rfl
+        · exact nulErr_cons_ne (by decide)
+      | cons e es =>
+        simp only [List.all_cons, Bool.and_eq_true] at hds
+        have := isDec_iff.mp hds.2.1
+        exact nulErr_cons_ne (by omega)
+    rw [List.cons_append, lMant, if_pos (digitVal_dec hds.1), ih d hd95 hds.2 (by simpa using hd95)]
+    simp [hd95', hd95, hnext]
+
+/-- `"1"…"9" { digit }` is an INT for both -/
+theorem decimal_lit_accepted (c : Nat) (ds : Str) (hc : 49 ≤ c ∧ c ≤ 57)
+    (hds : ds.all isDec = true) :
+    parseNum (c :: ds) = some .int ∧ scannerAccepts (c :: ds) = some .int := by
+  have hcd : isDec c = true := isDec_iff.mpr ⟨by omega, hc.2⟩
+  have h48 : (c == 48) = false := by simp only [beq_eq_false_iff_ne]; omega
+  have hm := lMant_digits 0 (c :: ds) [] (by decide) (by simp [hcd, hds]) (Or.inl rfl)
+  rw [List.append_nil] at hm
+  have hp : parseNum (c :: ds) = some .int := by
+    rw [parseNum_dec c ds hcd]
+    simp [lScanNumber, h48, hm, lFraction, lExponent, isMul, lExit, accL, kindOf]
+  refine ⟨hp, ?_⟩
+  rw [numbers_agree (c :: ds) (by simp [startsNumber, hcd]) ?_, hp]
+  unfold zeroUnderscore
+  split
+  · rename_i heq
+    simp only [List.cons.injEq] at heq
+    omega
+  · rfl
+
+/-- "0" is an INT for both -/
+theorem zero_lit_accepted : parseNum [48] = some .int ∧ scannerAccepts [48] = some .int := by
+  decide
+
+/-- `"1"…"9" { digit } "." digit { digit }` is a FLOAT for both -/
+theorem simple_float_accepted (c : Nat) (ds fs : Str) (hc : 49 ≤ c ∧ c ≤ 57)
+    (hds : ds.all isDec = true) (hfs : fs.all isDec = true) (hne : fs ≠ []) :
+    parseNum (c :: ds ++ 46 :: fs) = some .float ∧
+      scannerAccepts (c :: ds ++ 46 :: fs) = some .float := by
+  have hcd : isDec c = true := isDec_iff.mpr ⟨by omega, hc.2⟩
+  have h48 : (c == 48) = false := by simp only [beq_eq_false_iff_ne]; omega
+  have hm := lMant_digits 0 (c :: ds) (46 :: fs) (by decide) (by simp [hcd, hds])
+    (Or.inr ⟨fs, rfl⟩)
+  have hm2 := lMant_digits 0 fs [] (by decide) hfs (Or.inl rfl)
+  rw [List.append_nil] at hm2
+  have hnul : nulErr fs = false := by
+    cases fs with
+    | nil => rfl
+    | cons f t =>
+      simp only [List.all_cons, Bool.and_eq_true] at hfs
+      have := isDec_iff.mp hfs.1
+      exact nulErr_cons_ne (by omega)
+  have hp : parseNum (c :: ds ++ 46 :: fs) = some .float := by
+    rw [List.cons_append, parseNum_dec c _ hcd]
+    rw [List.cons_append] at hm
+    simp [lScanNumber, h48, hm, lFraction, hm2, hnul, lExponent, isMul, lExit, accL, kindOf]
+  refine ⟨hp, ?_⟩
+  rw [numbers_agree _ (by simp [startsNumber, hcd]) ?_, hp]
+  unfold zeroUnderscore
+  split
+  · rename_i heq
+    simp only [List.cons_append, List.cons.injEq] at heq
+    omega
+  · rfl
+
 end CueVerif.NumLit
